@@ -1,4 +1,4 @@
-\* quick: core library, at most 3 simultaneously live nodes, all histories of at most 5 operations
+\* thorough: core library, at most 3 simultaneously live nodes, all histories of at most 7 operations
 CONSTANTS
   Pkgs <- L_core_Pkgs
   PkgKey <- L_core_PkgKey
@@ -18,8 +18,8 @@ CONSTANTS
   DEV_DoubleRemove = FALSE
   DEV_UndefDep = TRUE
   DEV_DefRename = TRUE
-  MaxDepth = 5
-  FullEvery = 1
+  MaxDepth = 7
+  FullEvery = 6
 SPECIFICATION Spec
 VIEW MCView
 INVARIANTS NoPanic Consistent QueriesAgree EmitReplay
